@@ -1,10 +1,15 @@
 (* Where the Rabin transducer model certainly offers a step (arbitrary iterate
    lists with the structure rounds_ok + rounds_nb): at every valuation of the
    last z, with the memory in range, unless
-     (F3)  _hold = none, strict causality, and the state is an environment
-           dead end (in cpre(FALSE)), or
      (F12) _hold = i < number of persistence sets and the state is outside
-           y_{k,i} for its own level k (first z_k containing it). *)
+           y_{k,i} for its own level k (first z_k containing it).
+   The second class in which the construction used to block,
+     (F3)  _hold = none, strict causality, and the state is an environment
+           dead end (in cpre(FALSE)),
+   is gone with the repair of rho_1 (basin starts EMPTY, every z of zk is
+   served): [rabin_dead_end_step] - wherever the previous basin of the state's
+   level, or the empty set at level 0, can be forced, rho_1 offers a step,
+   whatever the memory. *)
 From Coq Require Import List Bool Arith Lia.
 Import ListNotations.
 From Omega Require Import L4.Arena L4.ArenaFacts L4.Kleene L4.AlgOrder L4.GameSpec.
@@ -425,22 +430,20 @@ Proof.
   - destruct Hrnb as [_ Hall]. apply (Hall i y xjr Ey Ex).
 Qed.
 
-(* --- A.i: the previous basin can be forced: rho_1 --- *)
-Lemma case_down : T1 <> [] -> cp zq s0 = true -> NB BODY.
+(* --- A.i: the previous basin can be forced (at level 0: the EMPTY set, i.e.
+       the state is an environment dead end): rho_1, whatever the memory --- *)
+Lemma case_down : cp zq s0 = true -> NB BODY.
 Proof.
-  intros Hne Hcp. exists none, j. split; [exact HnH|]. split; [lia|].
+  intros Hcp. exists none, j. split; [exact HnH|]. split; [lia|].
   assert (Hj' : j < G) by lia.
   apply (NB_core zq _ (mem none j) (mem_lt none j HnH Hj') Hcp).
   intros x' yb' Hx' Hyb' Hor. unfold body.
   rewrite band_spec, (range_at x' yb' none j HnH Hj'), andb_true_r, !bor_spec.
   apply orb_true_iff. left. apply orb_true_iff. left. apply orb_true_iff. left.
-  destruct (nonempty_cons T1 Hne) as [t0 [T1' HT1]].
   apply (R1_member nc nx ny H G EL SL holdsL moore plus_one zkL
-           (L (tz t0)) (map L (map tz T1')) (L z) (map L (map tz T2))).
-  - rewrite Hzk, HT1, map_app. reflexivity.
-  - change (L (tz t0) :: map L (map tz T1')) with (map L (map tz (t0 :: T1'))).
-    rewrite <- HT1.
-    rewrite (last_map_lift nc nx ny M). unfold RabinNB1.t1.
+           (map L (map tz T1)) (L z) (map L (map tz T2))).
+  - rewrite Hzk, map_app. reflexivity.
+  - rewrite (last_map_lift nc nx ny M). unfold RabinNB1.t1.
     rewrite !band_spec, bnot_spec.
     rewrite (lift_at x' yb' none j HnH Hj' z Sz), (lift_at x' yb' none j HnH Hj' _ Szq).
     rewrite Hz, Hzq. cbn [negb andb].
@@ -452,6 +455,8 @@ Proof.
               (rhp_at x' yb' none j HnH Hj'), map_length, !Nat.eqb_refl. reflexivity.
 Qed.
 
+(* The next two lemmas are how the dead ends were served BEFORE the repair of
+   rho_1 (they remain true; [rabin_nb_ro] no longer needs them). *)
 (* --- dead end, no strict causality: the escape "\/ ~ env_action" --- *)
 Lemma case_deadend_escape : plus_one = false -> cp bfalse s0 = true ->
   NB (fun w => BODY w || (negb plus_one && negb (EL w))).
@@ -629,8 +634,9 @@ End Held.
 
 End Round.
 
-(* ---- the two classes in which the model blocks (known findings F3, F12) ------ *)
-(* F3: no persistence index, strict causality, environment dead end *)
+(* ---- the class in which the model blocks (known finding F12) ----------------- *)
+(* F3 (repaired; the unrepaired rho_1 blocked here, GenProofs/RabinUnrepaired.v):
+   no persistence index, strict causality, environment dead end *)
 Definition class_F3 : Prop :=
   h = none /\ plus_one = true /\ cp bfalse s0 = true.
 (* F12: a persistence index i is held but the state is outside y_{k,i} of its
@@ -648,26 +654,40 @@ Proof.
   apply wrap_nb. revert Hn. apply NBm_mono. intros x' yb' _ _ Hb. rewrite Hb. reflexivity.
 Qed.
 
-Theorem rabin_nb_ro : ~ class_F3 -> ~ class_F12 -> NB A.
+(* the level of the state and its previous basin *)
+Lemma dead_end_forces_level (T1 : list round) :
+  cp bfalse s0 = true -> cp (last (map tz T1) bfalse) s0 = true.
 Proof.
-  intros N3 N12.
+  intros Hcp.
+  assert (Hle : Kleene.le nc nx ny bfalse (last (map tz T1) bfalse))
+    by (intros w _ Hw; discriminate Hw).
+  apply (cpre_spec_mono nc nx ny moore plus_one E S bfalse _ Hle s0 s0_inr Hcp).
+Qed.
+
+(* at an environment dead end (the component can make the environment's action
+   false while keeping its own) the repaired rho_1 offers a step, in every
+   mode and whatever the memory (in range) *)
+Theorem rabin_dead_end_step : cp bfalse s0 = true -> NB A.
+Proof.
+  intros Hcp.
+  assert (Sf : spred bfalse) by (intros w; reflexivity).
+  destruct (find_round bfalse zk yki xkijr Hro Hrn Sf eq_refl Hwin)
+    as [T1 [z [yi [xijr [T2 [Hs [Hz [Hzq [Szq [Hrok [Hrnb [Hfi [Hnth Hzk]]]]]]]]]]]]].
+  rewrite rabin_action_alt. apply NB_wrap.
+  apply (case_down T1 z yi xijr T2 Hz Hzq Szq Hrok Hzk (dead_end_forces_level T1 Hcp)).
+Qed.
+
+Theorem rabin_nb_ro : ~ class_F12 -> NB A.
+Proof.
+  intros N12.
   assert (Sf : spred bfalse) by (intros w; reflexivity).
   destruct (find_round bfalse zk yki xkijr Hro Hrn Sf eq_refl Hwin)
     as [T1 [z [yi [xijr [T2 [Hs [Hz [Hzq [Szq [Hrok [Hrnb [Hfi [Hnth Hzk]]]]]]]]]]]]].
   rewrite rabin_action_alt.
   destruct (cp (last (map tz T1) bfalse) s0) eqn:Ecp.
-  - (* the previous basin (or the empty set) can be forced *)
-    destruct (nil_or_not T1) as [HT|HT].
-    + (* level 0: environment dead end *)
-      rewrite HT in Ecp. cbn [map last] in Ecp.
-      destruct (Bool.bool_dec plus_one true) as [Ep|Ep].
-      * destruct (Nat.eq_dec h none) as [Hn|Hn].
-        -- exfalso. apply N3. split; [exact Hn|]. split; [exact Ep|exact Ecp].
-        -- apply NB_wrap. apply (case_deadend_hold T1 z yi xijr T2 Hs Hrok Hrnb); [lia|exact Ecp].
-      * apply not_true_is_false in Ep.
-        destruct (case_deadend_escape Ep Ecp) as [h' [j' [Hh' [Hj' Hn]]]].
-        exists h', j'. split; [exact Hh'|]. split; [exact Hj'|]. apply wrap_nb, Hn.
-    + apply NB_wrap. apply (case_down T1 z yi xijr T2 Hz Hzq Szq Hrok Hzk HT Ecp).
+  - (* the previous basin (at level 0: the empty set - an environment dead
+       end) can be forced: rho_1 *)
+    apply NB_wrap. apply (case_down T1 z yi xijr T2 Hz Hzq Szq Hrok Hzk Ecp).
   - (* at the rim of the round *)
     apply NB_wrap. destruct (Nat.eq_dec h none) as [Hn|Hn].
     + apply (case_pick T1 z yi xijr T2 Hs Hz Hzq Szq Hrok Hrnb Hn Ecp).
@@ -731,7 +751,22 @@ Local Notation A := (rabin_action nc nx ny H G (L E) (L S) (map L holds) (map L 
                        (map (map (map (map L))) xkijrf)).
 
 (* at a winning valuation, with the memory in range, the synthesized action
-   allows a step unless the state is in one of the two classes *)
+   allows a step unless the persistence index held is stale (class F12) *)
+Theorem rabin_impl_blocks_only_stale_hold c x yb h j :
+  c < nc -> x < nx -> yb < ny -> j < length goals -> h <= length holds ->
+  last zkf bfalse (sv c x yb) = true ->
+  ~ class_F12 holds c x yb h zkf ykif ->
+  NB nx ny H G moore c x yb h j A.
+Proof.
+  intros Hc Hx Hyb Hj Hh Hwin N12.
+  apply (rabin_nb_ro nc nx ny H G E S holds goals moore plus_one Sg HnG HnH
+           c x yb h j Hc Hx Hyb Hj Hh zkf ykif xkijrf); try assumption.
+  - apply (solve_rounds_ok nc nx ny E S holds goals moore plus_one fuel Hfuel Sh Sg).
+  - apply (solve_rounds_nb nc nx ny E S holds goals moore plus_one fuel Hfuel Sh Sg).
+Qed.
+
+(* the statement as it was before the repair of rho_1 (with the hypothesis
+   "not in class F3", now superfluous); kept under its name *)
 Theorem rabin_impl_blocks_only_known c x yb h j :
   c < nc -> x < nx -> yb < ny -> j < length goals -> h <= length holds ->
   last zkf bfalse (sv c x yb) = true ->
@@ -739,8 +774,20 @@ Theorem rabin_impl_blocks_only_known c x yb h j :
   ~ class_F12 holds c x yb h zkf ykif ->
   NB nx ny H G moore c x yb h j A.
 Proof.
-  intros Hc Hx Hyb Hj Hh Hwin N3 N12.
-  apply (rabin_nb_ro nc nx ny H G E S holds goals moore plus_one Sg HnG HnH
+  intros Hc Hx Hyb Hj Hh Hwin _ N12.
+  exact (rabin_impl_blocks_only_stale_hold c x yb h j Hc Hx Hyb Hj Hh Hwin N12).
+Qed.
+
+(* at a winning environment dead end the synthesized action allows a step,
+   whatever the memory in range (the repair of finding F3) *)
+Theorem rabin_impl_dead_end_step c x yb h j :
+  c < nc -> x < nx -> yb < ny -> j < length goals -> h <= length holds ->
+  last zkf bfalse (sv c x yb) = true ->
+  cpre_spec nx ny moore plus_one E S bfalse (sv c x yb) = true ->
+  NB nx ny H G moore c x yb h j A.
+Proof.
+  intros Hc Hx Hyb Hj Hh Hwin Hcp.
+  apply (rabin_dead_end_step nc nx ny H G E S holds goals moore plus_one HnG HnH
            c x yb h j Hc Hx Hyb Hj Hh zkf ykif xkijrf); try assumption.
   - apply (solve_rounds_ok nc nx ny E S holds goals moore plus_one fuel Hfuel Sh Sg).
   - apply (solve_rounds_nb nc nx ny E S holds goals moore plus_one fuel Hfuel Sh Sg).
